@@ -101,6 +101,7 @@ Proof. intros (H1 & H2 & H3 & H4 & _). repeat split; assumption. Qed.
 Lemma free_vip_base name s : same_base (free_vip name s) s.
 Proof.
   unfold free_vip. destruct (negb _); [apply same_base_refl|]. destruct (has_instance name s); [apply same_base_refl|].
+  destruct (has_connect_instance name s); [apply same_base_refl|].
   destruct (existsb _ _); [apply same_base_refl|]. destruct (vips s !! name) as [[ip m]|]; repeat split.
 Qed.
 Lemma NoOrph_base a b : same_base a b -> NoOrph b -> NoOrph a.
